@@ -123,6 +123,7 @@ func emit(c *hx.Ctx, name string, proto api.XProtocol, input []byte, id uint64, 
 	c.Emit("C01", fmt.Sprintf("%s %d %s %s", name, id, opsTok(ops), hx.Hex(input)), fmt.Sprintf("%s %s %s", dec, enc, hx.Hex(out)))
 	c.Count(name + ".dec=" + strings.SplitN(dec, ":", 2)[0])
 	c.Count(name + ".enc=" + enc)
+	maybeReencm(c, proto, name, "", input, ops, dec)
 }
 
 // boundary lengths named by the property
